@@ -206,6 +206,13 @@ def send_pool():
             if n and not attr:
                 continue      # NLRI without path attributes is not a message BGP can express: out of range
             cases.append((attr, n, wd))
+    # the same type codes in other spellings a JSON client may use (the view reads them with int()): LOCAL_PREF given / absent / 0
+    for lp in (None, 0, 200):
+        for sp in (' %d', '0%d', '+%d', '%d '):
+            attr = {sp % 1: 0, sp % 2: [[2, [65001, 65002]]], sp % 3: '10.0.0.1', sp % 4: 7}
+            if lp is not None:
+                attr[sp % 5] = lp
+            cases.append((attr, N[1], Wd[0]))
     return cases
 
 
@@ -258,8 +265,8 @@ def task_send(args):
         except ValueError as e:
             viol.append(('C16|iii|UPDATE on the wire does not parse: %s|%s' % (e, label), {'request': body, 'hex': new[0].hex()}))
             continue
-        want_attr = dict(attr)
-        if attr and '5' not in attr and ibgp:
+        want_attr = dict((str(int(k)), v) for k, v in attr.items())        # (a type code may be written "05", " 5", "+5": int() reads them all)
+        if attr and '5' not in want_attr and ibgp:
             want_attr['5'] = 100
         want_a = sorted(ref_attr(int(k), v, True) for k, v in want_attr.items())
         got_a = sorted(attr_tlvs(ga))
